@@ -22,7 +22,10 @@ Module ExI.
     show (inspect hok hd o (mkrdr 1 zero_v2hdr) payload true)
     = Some (1, 3, true, (25, 36, 7), (44, 130, 0), [(85, 1); (112, 1); (113, 1)], [(0, 1); (18, 2)], 0) /\
     br_read_all hok hd (untrusted o) payload = Ok (1, roots, mkscan bs EEof).
-  Proof. repeat split; vm_compute; congruence. Qed.
+  Proof.
+    split; [vm_compute; congruence|]. split; [vm_compute; reflexivity|].
+    split; vm_compute; reflexivity.
+  Qed.
 
   (* CARv2 with padding and an index whose codec (0x0401) is readable *)
   Definition idx : bytes := [x81; x08; x00; x00].
@@ -34,7 +37,10 @@ Module ExI.
     = Some (2, 3, true, (25, 36, 7), (44, 130, 0), [(85, 1); (112, 1); (113, 1)], [(0, 1); (18, 2)], 1025) /\
     br_read_all hok hd (untrusted o) v2 = Ok (2, roots, mkscan bs EEof) /\
     index_codec rd2 v2 = Ok 1025.
-  Proof. repeat split; vm_compute; congruence. Qed.
+  Proof.
+    split; [vm_compute; reflexivity|]. split; [vm_compute; reflexivity|].
+    split; vm_compute; reflexivity.
+  Qed.
 
   (* a root that is in no block, no blocks at all: RootsPresent false, all lengths 0 *)
   Example c13_empty :
@@ -52,7 +58,9 @@ Module ExI.
   Example c13_inner_version_2 :
     (exists rd, new_reader hd o v2_inner2 = Ok rd /\ inspect hok hd o rd v2_inner2 true = Err EOther) /\
     br_read_all hok hd (untrusted o) v2_inner2 = Err EOther.
-  Proof. split; [eexists; split|]; vm_compute; reflexivity. Qed.
+  Proof.
+    split; [exists (mkrdr 2 (mkv2 0 0 51 (blen inner2) 0)); split|]; vm_compute; reflexivity.
+  Qed.
 
   (* 2. cut right after a section's length varint *)
   Definition cut_after_varint : bytes := ld (enc_header (Some roots) 1) ++ [x0a].
@@ -78,7 +86,13 @@ Module ExI.
   Example c13_long_pragma :
     is_err (new_reader hd o long_pragma) = true /\ is_err (br_read_all hok hd (untrusted o) long_pragma) = true /\
     (* what the unrepaired NewReader took as the CARv2 header, and where the payload then is *)
-    read_v2hdr (drop 11 long_pragma) = Ok (mkv2 0 0 100 (blen payload) 0, drop 51 long_pragma) /\
+    match read_v2hdr (drop 11 long_pragma) with
+    | Ok (h, _) => (h_doff h, h_dsize h, h_ioff h) = (100, blen payload, 0)
+    | Err _ => False
+    end /\
     take (blen payload) (drop 100 long_pragma) = payload.
-  Proof. repeat split; vm_compute; reflexivity. Qed.
+  Proof.
+    split; [vm_compute; reflexivity|]. split; [vm_compute; reflexivity|].
+    split; vm_compute; reflexivity.
+  Qed.
 End ExI.
